@@ -113,6 +113,28 @@ func (vc *VC) execExternal(f *ssa.Function, c *ssa.CallCommon, h *Heap, reach st
 	if !es.NoPanic {
 		vc.safety("ext."+name, reach, "false", "external function "+name+" is not known to be panic-free")
 	}
+	switch name {
+	case "(encoding/binary.bigEndian).Uint16":
+		// documented semantics: b[0]<<8 | b[1], panics when len(b) < 2
+		b := vc.value(c.Args[1])
+		vc.check("index", reach, app("<=", "2", app("s.len", b.S)), "binary.BigEndian.Uint16 needs two bytes")
+		comp, es := vc.elemComp(c.Args[1].Type().Underlying().(*types.Slice).Elem())
+		row := app("select", vc.get(h, comp), app("s.arr", b.S))
+		el := vc.u.elt(es)
+		t := app("+", app("*", "256", app(el, row, app("s.off", b.S), "0")), app(el, row, app("s.off", b.S), "1"))
+		return []Term{mk(vc.define("be16", SInt, t), SInt).withType(types.Typ[types.Uint16])}
+	case "(encoding/binary.bigEndian).PutUint16":
+		b := vc.value(c.Args[1])
+		v := vc.value(c.Args[2])
+		vc.check("index", reach, app("<=", "2", app("s.len", b.S)), "binary.BigEndian.PutUint16 needs two bytes")
+		comp, _ := vc.elemComp(c.Args[1].Type().Underlying().(*types.Slice).Elem())
+		e0 := vc.get(h, comp)
+		row := app("select", e0, app("s.arr", b.S))
+		row = app("store", row, app("s.off", b.S), app("div", v.S, "256"))
+		row = app("store", row, app("+", app("s.off", b.S), "1"), app("mod", v.S, "256"))
+		vc.set(h, comp, app("store", e0, app("s.arr", b.S), row))
+		return nil
+	}
 	if name == "fmt.Sprintf" {
 		if r, ok := vc.sprintfCall(c, h); ok {
 			return []Term{r}
